@@ -1043,10 +1043,13 @@ pub fn check(ctx: &CheckCtx) -> Option<Found> {
         return Some(f);
     }
     let t = ctx.tier;
-    if let Some(f) = ctx.search("sched", case_strategy(), t.pick(8000, 150_000), 6, None, run_case) {
-        return Some(f);
+    let child = crate::ship::is_child();
+    if !child {
+        if let Some(f) = ctx.search("sched", case_strategy(), t.pick(8000, 150_000), 6, None, run_case) {
+            return Some(f);
+        }
     }
-    if let Some(f) = ctx.search("free", free_strategy(), t.pick(3_000, 100_000), 4, None, run_free) {
+    if let Some(f) = ctx.search("free", free_strategy(), if child { 300 } else { t.pick(3_000, 100_000) }, 4, None, run_free) {
         return Some(f);
     }
     {
